@@ -116,6 +116,44 @@ def check_denotation(res, rng):
         res.sample({'arm': 'denotation', 'domain': domain, 'constraint': RC.show(Cx)})
 
 
+def real_case(res, Cx, v):
+    """A REAL type constrained by a numeric expression: building the value v must succeed exactly when v lies in the
+    denotation (ranges and single values over numbers)."""
+    case = ('c14-real', Cx, v)
+    feats = {'arm:real', 'domain:real', 'root:' + Cx[0]}
+    res.case(U.case_hash(case), True)
+    res.see('real-evaluations')
+    want = RC.admits(Cx, v)
+    try:
+        T = univ.Real().subtype(subtypeSpec=RC.to_pyasn1(Cx))
+    except Exception as ex:
+        res.see('skipped:constraint-not-constructible:' + type(ex).__name__)
+        return
+    try:
+        T.clone(v)
+        got = True
+    except error.PyAsn1Error:
+        got = False
+    except Exception as ex:
+        res.witness('real:constraint-evaluation-raised:' + type(ex).__name__, feats, case,
+                    '%s on %r: %s' % (RC.show(Cx), v, ex))
+        return
+    if got != want:
+        res.witness('real:%s' % ('accepts-outside' if got else 'rejects-inside'), feats, case,
+                    '%s on %r: library %s, set theory %s' % (RC.show(Cx), v, got, want))
+    else:
+        res.see('real-agree')
+
+
+def check_real(res, rng):
+    Cx = gen_tree(rng, 'int', rng.choice([0, 0, 1, 2]))
+    vals = set()
+    for b in RC.boundaries(Cx) | {0}:
+        vals |= {b - 1, b, b + 1, b + 0.5, b - 0.5}
+    for v in sorted(vals)[:24]:
+        real_case(res, Cx, v)
+
+
 # ------------------------------------------------------------------ (b) no bypass through operations
 
 INT_OPS = [
@@ -399,7 +437,9 @@ def run_shard(shard, tier, seed):
             break
         try:
             r = i % 10
-            if r < 4:
+            if i % 50 == 49:
+                check_real(res, rng)
+            elif r < 4:
                 check_denotation(res, rng)
             elif r < 6:
                 check_ops(res, rng)
@@ -417,7 +457,9 @@ def run_shard(shard, tier, seed):
 def replay(case):
     res = H.Result(ID)
     import random
-    if case[0] == 'c14-den':
+    if case[0] == 'c14-real':
+        real_case(res, case[1], case[2])
+    elif case[0] == 'c14-den':
         _, domain, Cx, v = case
         pc = RC.to_pyasn1(Cx)
         want = RC.admits(Cx, v)
